@@ -187,7 +187,7 @@ func c03(r *hx.Run) {
 	fx.Quiet()
 	client, v := stdClient()
 	delta := v.P.MaxOperationTimeDelta
-	r.Rule = "explicit-state search: states are sets of (pool operation, anchoring coordinate[, published]) placements; every state is resolved by the real processor/applier/parser/composer and by ref/sidetree and all result fields compared; a third of the states is resolved twice by one processor instance (identical answers required). A state is non-trivial when the reference applies at least one operation after the create."
+	r.Rule = "explicit-state search: states are sets of (pool operation, anchoring coordinate[, published]) placements; every state is resolved by the real processor/applier/parser/composer and by ref/sidetree and all result fields compared; a third of the states is resolved twice by one processor instance (identical answers required); for histories of <=2 operations after a valid / invalid create every single protocol-version lookup of the resolution is made to fail in turn: error, or the reference state of the history minus at most one operation. A state is non-trivial when the reference applies at least one operation after the create."
 	grid4 := []Coord{{1, 0}, {1, 1}, {2, 0}, {2, 1}}
 	grid5 := []Coord{{1, 0}, {1, 2}, {2, 0}, {2, 1}, {3, 0}}
 	pool := fx.NewPool(fx.Ed25519, fx.SHA256, "ok")
@@ -271,6 +271,12 @@ func c03(r *hx.Run) {
 		phases = append(phases, phase{"X", &histEnum{pool: pool, alpha: cyc, coords: after, depth: depthX, pubModes: "p", fixed: []fx.Placed{fixedC[0], junk}},
 			versionFailClient{client, 77}, 0})
 	}
+	// Z: coordinates that need the full width of uint64 (times and numbers 2^63 and more apart), creates in the alphabet
+	{
+		zAlpha := []string{"C", "C~h", "U01", "U01b", "U12", "R01", "R01b", "R0>u0", "V01", "D0", "D1", "U10"}
+		depthZ := 3
+		phases = append(phases, phase{tag: "Z", e: &histEnum{pool: pool, alpha: zAlpha, coords: wideGrid, depth: depthZ, pubModes: "p"}})
+	}
 	if r.Tier == "thorough" {
 		// E: everything incl. forged at depth 3 after the create
 		phases = append(phases, phase{tag: "E", e: &histEnum{pool: pool, alpha: all, coords: after, depth: 3, pubModes: "p", fixed: fixedC}})
@@ -298,6 +304,34 @@ func c03(r *hx.Run) {
 		})
 	}
 	r.Extra["phases_planned_histories"] = planned
+
+	// K: one protocol-version lookup of the resolution fails (every position in turn): the outcome is an error or the
+	// reference state of the history with at most one operation left out - never anything else
+	for _, variant := range []string{"ok", "invalid"} {
+		pk := fx.NewPool(fx.Ed25519, fx.SHA256, variant)
+		ek := &histEnum{pool: pk, alpha: []string{"U01", "U01b", "U12", "U10", "R01", "D0", "V01", "Fd(U01)", "Fc(U01)", "Fd(R01)", "C~h"}, coords: after, depth: 2, pubModes: "p",
+			fixed: []fx.Placed{{Op: pk.Get("C"), Time: 1, Num: 0, Published: true}}}
+		ek.run(r, func(placed []fx.Placed) {
+			caseID := "K[" + variant + "]:" + HistKey(placed)
+			if !r.Want(caseID) {
+				return
+			}
+			allowed := map[Result]bool{}
+			for leave := -1; leave < len(placed); leave++ {
+				var h []fx.Placed
+				for i, pl := range placed {
+					if i != leave {
+						h = append(h, pl)
+					}
+				}
+				st, merr := ResolveModel(h, nil, delta)
+				allowed[ProjectModel(st, merr)] = true
+			}
+			r.State()
+			r.Nontrivial(caseID)
+			flakySweep(r, "lookup-failure-changes-more-than-one-operation:"+variant, caseID, client, pk.Suffix, placed, allowed, 3*len(placed)+3)
+		})
+	}
 
 	// long deterministic chains: termination and agreement beyond the search depth
 	longChains(r, client, delta)
